@@ -197,6 +197,28 @@ def hex_bitmap_family(enc):
     return h
 
 
+def hex_prefixes(enc):
+    """every prefix (length 0..len) of concrete well-formed hex-bitmap messages"""
+    import binascii as _b
+    base = ['1644'.encode(enc) + _b.hexlify(bitmap_bytes([24, 72])) + '200'.encode(enc) + '005HELLO'.encode(enc),
+            '1240'.encode(enc) + _b.hexlify(bitmap_bytes([3])) + '123456'.encode(enc)]
+
+    def h():
+        iso = M().iso8583
+        msg = choose('msg', base)
+        n = choose('cut', list(range(0, len(msg) + 1)))
+        data = msg[:n]
+        rp = {'kind': 'loads', 'args': {'data': data, 'enc': enc, 'hexbm': True}}
+        with guard('loads', 'C07/exception', rp, allow=(iso.Iso8583DataError,), hang_key='C07/hang'):
+            try:
+                iso.loads(data, encoding=enc, hex_bitmap=True)
+                res = 'dict'
+            except iso.Iso8583DataError:
+                res = 'Iso8583DataError'
+        return {'sample': {'cut': n, 'result': res}, 'replay': rp}
+    return h
+
+
 def tools_catch_only_library_error():
     """syntactic side condition: the CLI wrappers catch exactly MciIpmDataError"""
     out = {}
@@ -256,5 +278,7 @@ def obligations(tier):
     for enc in ('latin_1', 'cp500'):
         obs.append(Ob('msg/hex-bitmap-family/%s' % enc, hex_bitmap_family(enc), 60,
                       'hex bitmap from a concrete family of malformed renderings x three message tails', _funcs))
+    for enc in ('latin_1', 'cp500'):
+        obs.append(Ob('msg/hex-prefixes/%s' % enc, hex_prefixes(enc), 60, 'every prefix of two concrete hex-bitmap messages', _funcs))
     obs.append(Ob('cli/catch-clauses', cli_syntax(), 10, 'AST of the three command line wrappers', lambda: []))
     return obs
